@@ -562,14 +562,14 @@ def s3_cases(ctx) -> Dict[int, List[Driver]]:
                  "E": [["tick", lease * 1000 + 1], ["renew", 0, "none"]]}
     for env in envs:
         pre = [["env"] + env]
-        by_lease[2] += explore(lambda pre=pre: s3_driver(ctx, scripts_c, lease, pre=pre), 1, 90 if quick else 400, free_actors=("E",))
-        by_lease[2] += explore(lambda pre=pre: s3_driver(ctx, scripts_e, lease, pre=pre), 1, 60 if quick else 300, free_actors=("E",))
+        by_lease[2] += explore(lambda pre=pre: s3_driver(ctx, scripts_c, lease, pre=pre), 1, 90 if quick else 300, free_actors=("E",))
+        by_lease[2] += explore(lambda pre=pre: s3_driver(ctx, scripts_e, lease, pre=pre), 1, 60 if quick else 200, free_actors=("E",))
     n5 = len(by_lease[2])
     for env in ([S3_ENVS[0], S3_ENVS[1], S3_ENVS[9]] if quick else S3_ENVS):
         scripts_z = {0: [["call", 0, "acquire", 1000], ["call", 0, "is_held"]],
                      1: [["call", 1, "acquire", 1500], ["call", 1, "is_held"]],
                      "E": [["env"] + env, ["tick", lease * 1000 + 1]]}
-        by_lease[2] += explore(lambda scripts_z=scripts_z: s3_driver(ctx, scripts_z, lease), 1, 120 if quick else 400, free_actors=("E",))
+        by_lease[2] += explore(lambda scripts_z=scripts_z: s3_driver(ctx, scripts_z, lease), 1, 120 if quick else 300, free_actors=("E",))
     n6 = len(by_lease[2])
     # (2) random: 3 clients, faults, renewals, deaths, clock jumps
     clients = [0, 1, 2]
